@@ -86,19 +86,37 @@ impl Proto {
                             "Error sending ACK message for transaction ID 0".to_owned()
                         })?;
                     } else {
-                        return Err(WorterbuchError::ProtocolNegotiationFailed(
-                            protocol_switch_request.version,
-                        ));
+                        // an unsupported version is a failed request, not a reason to drop the
+                        // client: tell it and keep the current protocol version
+                        self.latest
+                            .v0
+                            .handle_store_error(
+                                WorterbuchError::ProtocolNegotiationFailed(
+                                    protocol_switch_request.version,
+                                ),
+                                0,
+                            )
+                            .await?;
                     }
                     return Ok(true);
                 } else {
-                    match &self.handler {
-                        ProtocolHandler::V0(v0) => {
-                            v0.process_incoming_message(msg, authorized).await?;
+                    let transaction_id = msg.transaction_id().unwrap_or(0);
+                    let res = match &self.handler {
+                        ProtocolHandler::V0(v0) => v0.process_incoming_message(msg, authorized).await,
+                        ProtocolHandler::V1(v1) => v1.process_incoming_message(msg, authorized).await,
+                    };
+                    match res {
+                        // requests that cannot be served in the current state of the session are
+                        // answered with an error message like any other failing request
+                        Err(
+                            e @ (WorterbuchError::NotImplemented | WorterbuchError::AlreadyAuthorized),
+                        ) => {
+                            self.latest
+                                .v0
+                                .handle_store_error(e, transaction_id)
+                                .await?;
                         }
-                        ProtocolHandler::V1(v1) => {
-                            v1.process_incoming_message(msg, authorized).await?;
-                        }
+                        other => other?,
                     }
                 }
 
